@@ -1,7 +1,9 @@
 """Confirm sub-agent mutations in scratch worktrees (outside /repo and /verif), then run the registered
 checks against each one applied to /repo (undone straight afterwards) and file them under /verif/seeded/.
 
-usage: confirm_seeds.py <src-dir with Cxx.out/> [ID ...]"""
+usage: confirm_seeds.py <src-dir with Cxx.out/> [ID ...]
+env: SEED_OFFSET=n (numbering), SEED_SCRATCH=1 (development only: run the checks against a scratch worktree through
+PEGEN_REPO instead of applying the patch to /repo, e.g. while a long run is using /repo), SEED_BASE=<commit> (default HEAD)"""
 import json, os, shutil, subprocess, sys, pathlib, re
 
 SRC = pathlib.Path(sys.argv[1])
@@ -10,6 +12,8 @@ ONLY = set(sys.argv[2:])
 VERIF = pathlib.Path("/verif")
 SCR = pathlib.Path("/tmp/seedchk")
 SCR.mkdir(exist_ok=True)
+SCRATCH = os.environ.get("SEED_SCRATCH") == "1"
+BASE = os.environ.get("SEED_BASE", "HEAD")
 EXTRA = {"C14": ["C14", "C07"], "C07": ["C07", "C14"], "C09": ["C09", "C18"], "C03": ["C03", "C19"], "C19": ["C19", "C03"],
          "C11": ["C11", "C10"], "C16": ["C16", "C02"], "C02": ["C02", "C16"]}
 
@@ -21,7 +25,7 @@ def sh(cmd, **kw):
 def confirm(pid, i, patch, demo):
     wt = SCR / f"{pid}-{i}"
     sh(f"git -C /repo worktree remove --force {wt}")
-    r = sh(f"git -C /repo worktree add --detach {wt} HEAD")
+    r = sh(f"git -C /repo worktree add --detach {wt} {BASE}")
     res = {"applies": False}
     try:
         a = sh(f"git -C {wt} apply {patch}")
@@ -44,7 +48,11 @@ def confirm(pid, i, patch, demo):
         res["tests_pass"] = b.returncode == 0
         d1 = sh(f"timeout 600 /venv/bin/python {demo}", env=env, cwd=SCR)
         res["demo_with_patch"] = {"exit": d1.returncode, "tail": (d1.stdout + d1.stderr)[-600:]}
-        env0 = dict(env, PYTHONPATH="/repo/src")
+        if BASE == "HEAD":
+            env0 = dict(env, PYTHONPATH="/repo/src")
+        else:
+            sh(f"git -C {wt} checkout -- . && git -C {wt} clean -fdq")
+            env0 = env
         d0 = sh(f"timeout 600 /venv/bin/python {demo}", env=env0, cwd=SCR)
         res["demo_without_patch"] = {"exit": d0.returncode, "tail": (d0.stdout + d0.stderr)[-300:]}
     finally:
@@ -53,7 +61,41 @@ def confirm(pid, i, patch, demo):
     return res
 
 
+def detect_scratch(pid, patch):
+    """development mode: the checks run against a scratch worktree (PEGEN_REPO), /repo is not touched"""
+    out = {}
+    wt = SCR / f"det-{pid}"
+    sh(f"git -C /repo worktree remove --force {wt}")
+    sh(f"git -C /repo worktree add --detach {wt} {BASE}")
+    if pathlib.Path(str(patch) + ".rebased").exists():
+        patch = pathlib.Path(str(patch) + ".rebased")
+    a = sh(f"git -C {wt} apply {patch}")
+    if a.returncode:
+        a = sh(f"git -C {wt} apply --3way {patch}")
+    if a.returncode:
+        sh(f"git -C /repo worktree remove --force {wt}")
+        return {"error": a.stderr}
+    save = pathlib.Path(f"/tmp/seedchk/evsave-{pid}")
+    save.mkdir(exist_ok=True)
+    for f in (VERIF / "evidence").glob("*.json"):
+        shutil.copy(f, save / f.name)
+    env = dict(os.environ, PEGEN_REPO=str(wt), PYTHONPATH=f"{wt}/src:{VERIF}/harness", PYTHONHASHSEED="0", PYTHONDONTWRITEBYTECODE="1")
+    try:
+        for cid in EXTRA.get(pid, [pid]):
+            r = sh(f"/venv/bin/python harness/run_check.py {cid} --tier quick", cwd=VERIF, env=env)
+            lines = [l[:300] for l in r.stdout.splitlines() if re.match(r"VIOLATION|KNOWN-FINDING|\[C", l)]
+            out[cid] = {"exit": r.returncode, "lines": lines[:6]}
+    finally:
+        sh(f"git -C /repo worktree remove --force {wt}")
+        shutil.rmtree(wt, ignore_errors=True)
+        for f in save.glob("*.json"):
+            shutil.copy(f, VERIF / "evidence" / f.name)
+    return out
+
+
 def detect(pid, patch):
+    if SCRATCH:
+        return detect_scratch(pid, patch)
     out = {}
     assert sh("git -C /repo status --short").stdout.strip() == "", "repo not clean"
     if pathlib.Path(str(patch) + ".rebased").exists():
